@@ -1,9 +1,44 @@
 import PyamgV.Driver.Util
-/-! Driver ops of extension task E20 (op names prefixed `ext_`). -/
+import PyamgV.Model.ExtC18Bal
+import PyamgV.Model.ExtC18Rcm
+/-! Driver ops of extension task E20 (op names prefixed `ext_`): balanced Bellman-Ford
+(`Model/ExtC18Bal.lean`) and symmetric RCM / pseudo-peripheral node (`Model/ExtC18Rcm.lean`).
+The theorems of `Proofs/ExtC18Bal.lean`, `Proofs/ExtC18Rcm.lean` are about exactly these definitions. -/
 namespace PyamgV.Drv.ExtE20
 open PyamgV PyamgV.Drv
 
+def showSt (st : Bal.St) : String :=
+  showORats st.d ++ ";" ++ showInts st.m ++ ";" ++ showInts st.p ++ ";" ++ showInts st.pc ++ ";" ++ showInts st.s
+
+def mkA (n ap aj ax : String) : Bal.Csr := ⟨nat n, parseNats ap, parseNats aj, parseRats ax⟩
+def mkG (n ap aj : String) : G.Graph := ⟨nat n, parseNats ap, parseNats aj⟩
+
 def handle : List String → Option String
+  -- kernel on explicit arrays: `tol` exact rational, `tb` 0/1
+  | ["ext_c18_bfbal", n, ap, aj, ax, tol, tb, d, m, p, pc, s] =>
+    let st : Bal.St := ⟨parseORats d, parseInts m, parseInts p, parseInts pc, parseInts s⟩
+    some <| match Bal.kernel (parseRat tol) (tb = "1") (mkA n ap aj ax) st with
+      | .ok st ch => showSt st ++ ";" ++ toString ch
+      | .fault => "fault"
+      | .tooMany => "too-many-iterations"
+  -- the public wrapper `bellman_ford(G, centers, method='balanced', tiebreaking=tb)`
+  | ["ext_c18_bfbal_w", n, ap, aj, ax, tol, tb, centers] =>
+    some <| match Bal.wrapper (parseRat tol) (tb = "1") (mkA n ap aj ax) (parseInts centers).toList with
+      | .ok st => showORats st.d ++ ";" ++ showInts st.m ++ ";" ++ showInts st.p
+      | .valueError => "ValueError"
+      | .indexError => "IndexError"
+      | .fault => "fault"
+      | .tooMany => "too-many-iterations"
+  | ["ext_c18_rcm", n, ap, aj, x0] =>
+    some <| match Rcm.rcmPerm (mkG n ap aj) (nat x0) with
+      | some p => showInts p.toArray
+      | none => "none"
+  | ["ext_c18_ppn", n, ap, aj, x0] =>
+    let g := mkG n ap aj
+    some <| match Rcm.ppn g (g.n + 3) (nat x0) 0 with
+      | some (x, order, level) =>
+        toString x ++ ";" ++ showInts (Rcm.reachedPrefix order level).toArray ++ ";" ++ showInts level
+      | none => "none"
   | _ => none
 
 end PyamgV.Drv.ExtE20
